@@ -217,6 +217,11 @@ def _lvl_recompute_loop(c: Ctx, r: RuleResult, f: Func, stores: list[ast.AST]) -
                       f"counter after a nesting={k} token is {v}, expected {want_next[k]:+d}")
 
 
+def _blk_inc(st: ast.AST):
+    from ..syn import incr_of
+    return incr_of(st) if isinstance(st, (ast.Assign, ast.AugAssign)) else None
+
+
 def _lvl_constructed(c: Ctx, r: RuleResult, f: Func, stores: list[ast.AST]) -> None:
     """Tokens built by hand (`Token(kind, tag, n)` then `.level = <counter>`): walk each statement block with the counter's
     offset; a token with nesting n must get offset(before) + (n < 0 ? -1 : 0) and leave the counter at offset(before) + n."""
@@ -251,8 +256,10 @@ def _lvl_constructed(c: Ctx, r: RuleResult, f: Func, stores: list[ast.AST]) -> N
                     cur_tok = st.targets[0].id
                     tok_start_off = off
                     continue
-            if isinstance(st, ast.AugAssign) and U(st.target) == var and isinstance(st.value, ast.Constant) and isinstance(st.op, (ast.Add, ast.Sub)):
-                off += st.value.value if isinstance(st.op, ast.Add) else -st.value.value
+            from ..syn import const_int as _ci, incr_of as _inc
+            inc_ = _inc(st) if isinstance(st, (ast.Assign, ast.AugAssign)) else None
+            if inc_ is not None and inc_[0] == var and _ci(inc_[1]) is not None:
+                off += _ci(inc_[1]) if inc_[2] else -_ci(inc_[1])
                 continue
             if st in direct:
                 done.add(id(st))
@@ -271,10 +278,9 @@ def _lvl_constructed(c: Ctx, r: RuleResult, f: Func, stores: list[ast.AST]) -> N
                    for x in ast.walk(st)):
                 # the counter is written in a nested block: require that block to be neutral by the same walk (recursion through
                 # _blocks covers it); here: unknown offset
-                sub_aug = [x for x in ast.walk(st) if isinstance(x, ast.AugAssign) and U(x.target) == var]
-                net = sum((x.value.value if isinstance(x.op, ast.Add) else -x.value.value) for x in sub_aug
-                          if isinstance(x.value, ast.Constant))
-                if any(isinstance(x, ast.Assign) and any(U(t) == var for t in x.targets) for x in ast.walk(st)):
+                sub_inc = [i_ for i_ in (_inc(x) for x in ast.walk(st) if isinstance(x, (ast.Assign, ast.AugAssign))) if i_ is not None and i_[0] == var]
+                net = sum((_ci(i_[1]) or 0) * (1 if i_[2] else -1) for i_ in sub_inc)
+                if any(isinstance(x, ast.Assign) and any(U(t) == var for t in x.targets) and _inc(x) is None for x in ast.walk(st)):
                     off = 0
                     tok_start_off = 0
                     cur_tok = None
@@ -284,10 +290,10 @@ def _lvl_constructed(c: Ctx, r: RuleResult, f: Func, stores: list[ast.AST]) -> N
         if cur_tok is not None and cur_nest is not None and off != tok_start_off + cur_nest:
             r.add(f"{f.short}|counter|{cur_tok}|end", c.where(f, blk[-1]), f.short, f"counter after the last nesting={cur_nest} token", "violation",
                   f"counter moved by {off - tok_start_off}, expected {cur_nest:+d}")
-        elif off != 0 and any(isinstance(st, ast.AugAssign) and U(st.target) == var for st in blk):
+        elif off != 0 and any((i_ := _blk_inc(st)) is not None and i_[0] == var for st in blk):
             r.add(f"{f.short}|counter|block-neutral", c.where(f, blk[-1]), f.short, "counter at the end of the block", "violation",
                   f"the block leaves the level counter at {off:+d}: the tokens it adds are not balanced")
-        elif any(isinstance(st, ast.AugAssign) and U(st.target) == var for st in blk):
+        elif any((i_ := _blk_inc(st)) is not None and i_[0] == var for st in blk):
             r.add(f"{f.short}|counter|block-neutral", c.where(f, blk[-1]), f.short, "counter at the end of the block", "discharged",
                   "the hand-built open/close pair leaves the counter where it was")
     for st in stores:
@@ -370,17 +376,21 @@ def _once_only(f: Func, flags: set[str]) -> dict[int, str]:
 def _once_candidate(loop: ast.While, prev: ast.Assign, flags: set[str], res: dict[int, str]) -> bool:
     v, E = prev.targets[0].id, prev.value          # type: ignore[attr-defined]
     enames = {x.id for x in ast.walk(E) if isinstance(x, ast.Name)}
+    from ..syn import const_int, incr_of
     for n in ast.walk(loop):
+        inc = incr_of(n) if isinstance(n, (ast.Assign, ast.AugAssign)) else None
+        if inc is not None and inc[0] == v:
+            k = const_int(inc[1])
+            if not (inc[2] and k is not None and k > 0):
+                return False
+            continue
         if isinstance(n, ast.Assign):
             for t in n.targets:
                 for x in ast.walk(t):
                     if isinstance(x, ast.Name) and isinstance(x.ctx, ast.Store) and (x.id == v or x.id in enames):
                         return False
         if isinstance(n, ast.AugAssign) and isinstance(n.target, ast.Name):
-            if n.target.id == v:
-                if not (isinstance(n.op, ast.Add) and isinstance(n.value, ast.Constant) and isinstance(n.value.value, int) and n.value.value > 0):
-                    return False
-            elif n.target.id in enames:
+            if n.target.id in enames or n.target.id == v:
                 return False
         if isinstance(n, (ast.For, ast.comprehension)):
             for x in ast.walk(n.target):
